@@ -21,6 +21,7 @@ import shutil
 import subprocess
 import sys
 import tempfile
+import threading
 import time
 
 VERIF = os.path.dirname(os.path.dirname(os.path.abspath(__file__)))
@@ -166,6 +167,7 @@ class Ctx:
         self._nrep = 0
         self.vclasses = {}
         self._tlc_n = 0
+        self._lock = threading.Lock()   # checks may run several tlc()/gotest() calls from threads
 
     # ------------------------------------------------------------------ helpers
     def log(self, *a):
@@ -238,8 +240,10 @@ class Ctx:
         copy of the spec directory.  cfg_text overrides the cfg file's content.  `constants`
         (dict) appends/overrides CONSTANT lines `k = v`.  json_sink: path of a file to which
         decoded JSON lines are appended instead of being held in memory."""
-        self._tlc_n += 1
-        work = os.path.join(self.tmp, "tlc%d" % self._tlc_n)
+        with self._lock:
+            self._tlc_n += 1
+            n = self._tlc_n
+        work = os.path.join(self.tmp, "tlc%d" % n)
         os.makedirs(work)
         for f in os.listdir(SPEC):
             if f.endswith(".tla") or f.endswith(".cfg"):
@@ -380,8 +384,10 @@ class Ctx:
                 overlay[os.path.join(REPO, "internal", "verifx", f)] = os.path.join(HARNESS, "x", f)
         for dst, src in (extra_files or {}).items():
             overlay[os.path.join(REPO, dst)] = os.path.join(HARNESS, src)
-        self._tlc_n += 1
-        work = os.path.join(self.tmp, "go%d" % self._tlc_n)
+        with self._lock:
+            self._tlc_n += 1
+            n = self._tlc_n
+        work = os.path.join(self.tmp, "go%d" % n)
         os.makedirs(work)
         ov = os.path.join(work, "overlay.json")
         with open(ov, "w") as fh:
